@@ -64,6 +64,12 @@ def run(ctx):
             if rng.random() < 0.3:
                 items.append((ver, s + "/" + "/".join("%s:%s" % (m, rng.choice(core.VOCAB[ver]["legal"][m]))
                                                       for m in rng.sample(core.VOCAB[ver]["mandatory"], rng.randrange(1, 4)))))
+    # every prefix variant in front of a valid body, for every constructor
+    for ver in "234":
+        body = core.render(ver, core.rand_assignment(ver, rng, p_absent=0.8), prefix="")
+        for pe in core.PREFIX_EDITS:
+            for v in "234":
+                items.append((v, pe + body))
     # de-duplicate
     items = list(dict.fromkeys(items))
     send = [(v, s) for v, s in items if core.sendable(s)]
